@@ -1,7 +1,7 @@
 SPEC = {
     "trusted": [
         "C11: the specification side of the theorems is the inductive relation Ext (extended name along the chain of outer classes), Broken (a missing or unnamed outer class on that chain), ext_rel / contract_rel (everything but the chosen namespace cell identical) of coq/C11/Theory.v and Theory2.v, transcribed by hand from the property statement",
-        "C11: the inner-class split/join model (split_inner, join_inner) is shared with C18 (coq/C18/Model.v; inverse laws C18_split_join / C18_join_split)",
+        "C11: the inner-class split/join model (split_inner, join_inner) is shared with C18 (coq/C18/Model.v; the inverse laws of get_inner_class_parent / get_inner_class_name / from_inner_class are C18_split_join / C18_join_split, re-exported as C11_split_join / C11_join_split)",
         "C11: IndexMap<ObjClassName, _> is modelled as the list of class nodes in insertion order, lookup by key = first class whose first-namespace name equals the key (coq/Quill/Mappings.v); the harness checks after every call that keys and node infos are still in sync",
         "C11: the harness' independent reference extension/contraction (harness/src/bin/c11.rs ref_extend, ref_contract: iterative, hash index by source name) is the oracle used to search for failing inputs on the implementation",
     ],
@@ -9,7 +9,8 @@ SPEC = {
         "strings are sequences of code points; the java_string crate's chars()/rsplit_once are trusted to act on them",
         "contract_extend needs simple_names M ns (decidable, evaluated on every generated input both by the harness and by the model): in namespace ns the name of a class with a nested source name contains neither `$` nor `/`; the name of a top-level class is not splittable as an inner class name and does not end with `/`; names are non-empty. Outside it the law fails on the real code (e.g. A->a, A$B->p/b extends to a$p/b which contracts to itself): a precondition of the property, not a defect",
         "extend_err_iff is stated for well-formed mapping sets (wf of coq/Quill/Mappings.v: every names row has one cell per namespace, at least two namespaces, first-namespace names present and unique) — exactly the values that can be built as Mappings<N,_>; extend_err_iff_gen drops the hypothesis",
-        "a class that has NO name in the chosen namespace is left alone without looking at its outer classes (follows the code: `if let (src, Some(b))`), and asking for the first namespace succeeds on a mapping set without classes",
+        "a class that has NO name in the chosen namespace is left alone without looking at its outer classes (follows the code: `if let (src, Some(b))`), ",
+        "the property quantifies over a target namespace at a NON-FIRST index. Asking `extend` for the first namespace: with classes present it must fail (the names of the first namespace are the map keys; C11_extend_first_namespace, required by the oracle); on a set WITHOUT classes the present code answers Ok(unchanged) — the model follows the code there (C11_extend_spec's last clause and the general C11_extend_err_iff say what the code does), but the property does not promise it: the oracle accepts Err as well as Ok-unchanged, and C11_extend_err_iff_nonfirst is the failure characterisation on the property's domain, independent of that choice. An early bail for namespace 0 in `extend` (mirroring `contract`, fix 4d8ec0a) would show up as a model/implementation disagreement to be followed in the model, not as a violation of the property",
     ],
     "stated_not_proved": [],
 }
